@@ -393,8 +393,9 @@ class _ScopeContext:
 
         return True
 
-    def walk_Comp(self, ast: AST) -> Generator[fst.FST, bool, None]:
-        """See `walk_funcdef()`. This gets messy if the first generator iterator is a scope itself."""
+    def walk_Comp(self, ast: AST, sub_asts: list[AST] | None = None) -> Generator[fst.FST, bool, None]:
+        """See `walk_funcdef()`. This gets messy if the first generator iterator is a scope itself. If `sub_asts` is
+        passed then only those nodes of the Comp `ast` are walked instead of the whole thing."""
 
         fst_ = ast.f
         all = self.all
@@ -403,9 +404,10 @@ class _ScopeContext:
         first_iter = ast.generators[0].iter
 
         def check_inner(f: fst.FST) -> bool:  # the nodes we need to get to regardless of what the user wants yielded
-            return f.a is first_iter or (f.pfield.name == 'target' and f.parent.a.__class__ is NamedExpr)
+            return ((a := f.a) is first_iter or a.__class__ is Lambda
+                    or (f.pfield.name == 'target' and f.parent.a.__class__ is NamedExpr))
 
-        gen = fst_.walk(check_inner, self_=False, back=back)  # no scope=True here because we do it manually, user `all` is not used for this walk because it would also filter out what we are looking for (and so everything below), is applied on yield
+        gen = fst_.walk(check_inner, self_=False, back=back, asts=sub_asts)  # no scope=True here because we do it manually, user `all` is not used for this walk because it would also filter out what we are looking for (and so everything below), is applied on yield
 
         for f in gen:  # we want to return all NamedExpr.target and first top-level .iter, yeah, its ugly
             a = f.a
@@ -436,6 +438,14 @@ class _ScopeContext:
                             asts = None
 
                         yield from f.walk(all, self_=False, scope=True, back=back, asts=asts)
+
+                gen.send(False)  # we processed this node here so don't recurse into it
+
+            elif a.__class__ is Lambda:  # its body is a scope of its own so a NamedExpr.target there does not belong to our scope, the defaults are evaluated in the Comprehension so from those it does
+                self.stack_Lambda(a, defaults := [], True)  # no_back=True because it will be reversed as needed in the walk over the asts
+
+                if defaults:
+                    yield from self.walk_Comp(ast, defaults)
 
                 gen.send(False)  # we processed this node here so don't recurse into it
 
